@@ -948,6 +948,67 @@ pub fn random_registry<VS: HSet>(rng: &mut Rng, versions: &[u32]) -> Registry<VS
     Registry { entries }
 }
 
+/// layered registries: root -> x -> y -> z with several versions per layer and breakage at the bottom,
+/// so that learned incompatibilities are reused after backtracking (shared nodes in the error tree)
+pub fn layered_registry<VS: HSet>(rng: &mut Rng, versions: &[u32]) -> Registry<VS> {
+    let mut entries = BTreeMap::new();
+    let layers = ["x", "y", "z", "w"];
+    let depth = 2 + rng.below(3) as usize; // 2..=4 layers below the root
+    let pick_versions = |rng: &mut Rng| -> Vec<u32> {
+        let mut vs: Vec<u32> = versions.to_vec();
+        let n = 1 + rng.below(vs.len() as u64) as usize;
+        while vs.len() > n {
+            let i = rng.below(vs.len() as u64) as usize;
+            vs.remove(i);
+        }
+        vs
+    };
+    let wide = |rng: &mut Rng| -> VS {
+        if rng.chance(2, 3) {
+            VS::full()
+        } else {
+            VS::family(rng)
+        }
+    };
+    let rv = versions[0];
+    let mut root_deps = vec![(layers[0].to_string(), wide(rng))];
+    if rng.chance(1, 3) && depth >= 2 {
+        root_deps.push((layers[1].to_string(), wide(rng)));
+    }
+    entries.insert(("root".to_string(), rv), Ok(root_deps));
+    for l in 0..depth {
+        let p = layers[l];
+        for v in pick_versions(rng) {
+            if rng.chance(1, 15) {
+                entries.insert((p.to_string(), v), Err("nodeps".to_string()));
+                continue;
+            }
+            let mut ds: Vec<(String, VS)> = vec![];
+            if l + 1 < depth {
+                ds.push((layers[l + 1].to_string(), wide(rng)));
+                if rng.chance(1, 4) && l + 2 < depth {
+                    ds.push((layers[l + 2].to_string(), wide(rng)));
+                }
+            } else {
+                // bottom layer: mostly broken
+                match rng.below(6) {
+                    0 => {}
+                    1 => ds.push(("zz".to_string(), VS::full())),
+                    2 => ds.push((layers[0].to_string(), VS::family(rng))),
+                    3 => ds.push((p.to_string(), VS::family(rng))),
+                    4 => ds.push((layers[l.saturating_sub(1)].to_string(), VS::empty())),
+                    _ => ds.push(("zz".to_string(), VS::family(rng))),
+                }
+            }
+            if rng.chance(1, 6) {
+                ds.push((layers[rng.below(depth as u64) as usize].to_string(), VS::family(rng)));
+            }
+            entries.insert((p.to_string(), v), Ok(ds));
+        }
+    }
+    Registry { entries }
+}
+
 pub fn random_strat(rng: &mut Rng) -> Strat {
     match rng.below(8) {
         0 | 1 => Strat::NewestFewest,
